@@ -38,11 +38,11 @@ echo "== with change: demo (expected to FAIL)" | tee -a $LOG
 run_demo >> $LOG 2>&1; with=$?
 echo "demo exit with change: $with" | tee -a $LOG
 echo "== with change: workspace test suite" | tee -a $LOG
-timeout 3000 cargo test --workspace --no-fail-fast --offline -j 8 > $DST/.suite.out 2>&1
-grep -E "^test [^ ]+ \.\.\. FAILED" $DST/.suite.out | sort -u | tee -a $LOG
-npass=$(grep -cE "^test .* \.\.\. ok" $DST/.suite.out); nfail=$(grep -E "^test [^ ]+ \.\.\. FAILED" $DST/.suite.out | sort -u | wc -l)
+timeout 3000 cargo nextest run --workspace --no-fail-fast --tool-config-file pb:/w/lib/nextest.toml --profile pb --test-threads 8 --offline > $DST/.suite.out 2>&1
+grep -E "^ +FAIL " $DST/.suite.out | sed "s/.*) //" | sort -u | tee -a $LOG
+npass=$(grep -E "Summary" $DST/.suite.out | sed -E "s/.*: ([0-9]+) passed.*/\1/"); npass=${npass:-0}; nfail=$(grep -E "^ +FAIL " $DST/.suite.out | sed "s/.*) //" | sort -u | wc -l)
 echo "suite: passed=$npass failed=$nfail" | tee -a $LOG
-unexpected=$(grep -E "^test [^ ]+ \.\.\. FAILED" $DST/.suite.out | grep -v "integration_test\|test_union_assocdata_vsx" | wc -l)
+unexpected=$(grep -E "^ +FAIL " $DST/.suite.out | sed "s/.*) //" | sort -u | grep -v "integration_test\|test_union_assocdata_vsx" | wc -l)
 grep -q "error: could not compile\|error\[E" $DST/.suite.out && { echo "COMPILE ERROR" | tee -a $LOG; unexpected=99; }
 git apply -R $OUT/patch.diff
 git clean -fdq -e target -e Cargo.lock
